@@ -1,5 +1,6 @@
-(* C01 -- the fragment of the language for which codegen_correct is proved
-   (explicit boolean predicate) and the consistency condition on function ids.
+(* C01 -- the fragment of the language for which codegen_correct is proved:
+   `in_fragment` (a boolean predicate on the syntax) and the consistency
+   condition on function ids `funs_ok` that ProofsFuns.v derives from it.
    No proofs in this file. *)
 From Coq Require Import ZArith String List Bool.
 From SV Require Import C01.Syntax C01.Values C01.Ref C01.VM C01.Compile.
@@ -10,7 +11,6 @@ Open Scope nat_scope.
 
 Definition is_nil {A} (l : list A) : bool := match l with [] => true | _ => false end.
 
-(* expressions: everything except lambda and comprehensions *)
 (* call arguments in the order the resolver accepts: positional, named, then at most one *args, then at most one **kwargs *)
 Definition is_named_arg (a : arg) : bool := match a with ANamed _ _ => true | _ => false end.
 Definition shape2 (args : list arg) : bool :=
@@ -33,6 +33,7 @@ Fixpoint pos_then_named (args : list arg) : bool :=
   | _ => false
   end.
 
+(* expressions: everything except lambda and comprehensions *)
 Fixpoint ok_expr (e : expr) : bool :=
   match e with
   | EName _ _ | EInt _ | EStr _ | EUnsup _ => true
